@@ -73,7 +73,7 @@ def run_exchange(case):
     t0 = 0.02
     if role in ('stack_orig', 'stack_bam_tx'):
         R = Responder(W.bus, sim, rng, REF, fd, grant=case['grant'], holds=tuple(case['holds']), reply=tuple(case['reply']), hold_between=case['hold_between'],
-                      grants=case.get('grants'), own_max=case.get('peer_max', 255))
+                      grants=case.get('grants'), own_max=case.get('peer_max', 255), late_after_hold=case.get('late_after_hold'))
         W.run(0.01)
         sim.at(t0, lambda: W.call('send', ca.send_pgn, case['dp'], case['pf'], ps, case['prio'], list(pay)))
         dur = npk * (iv_bam + 0.001) + 1
@@ -99,6 +99,7 @@ def run_exchange(case):
         dur = npk * (iv_bam + 0.012) + 3
     W.run(t0 + dur)
     sn = SN.sniff(layer, W.bus.frames)
+    expect_failure = bool(case.get('late_after_hold'))
     obs = dict(exchanges=1, frames=len(W.bus.frames), cts_checked=0, dt_checked=0, holds_exercised=0, bam_gaps_measured=0, cmdt_gaps_measured=0,
                stack_originator=0, stack_responder=0, zero_latency=1 if case['zero'] else 0, bam_gap_min_us_max=0, bam_gap_max_ms_max=0)
     for p in W.liveness_problems():
@@ -193,6 +194,10 @@ def run_exchange(case):
                     break
     if not A.tables_empty():
         findings.append(('session_stuck', 'stack session tables not empty at the end: %s' % A.tables()))
+    if expect_failure:
+        # the responder deliberately let a hold expire: the transfer may end with the originator's abort; only flow-control findings count
+        findings = [f for f in findings if f[0] in FLOW_KINDS or f[0] in ('thread_died', 'spin', 'runaway')]
+        obs['expired_holds'] = 1
     sample = dict(case={k: v for k, v in case.items()}, frames=[f.brief() for f in W.bus.frames[:8]], sessions=[s.brief() for s in sn.sessions][:3],
                   cts=[(round(c[0], 4), c[1], c[2]) for s in sn.sessions for c in s.cts][:8])
     trace = [f.brief() for f in W.bus.frames[:400]] if case.get('trace') else None
